@@ -204,3 +204,29 @@ Print Assumptions C07_walker_converted_test_crashes.
 Theorem C07_walker_iface_child_total : forall c, holds "iface" c = true -> walk_node c = Ok tt.
 Proof. exact walk_iface_child_total. Qed.
 Print Assumptions C07_walker_iface_child_total.
+
+(* ---------------------------------------------------------------- with or without a reusable state *)
+(* a RunnerState may be created at any point of the engine's life; the engine may load further files afterwards. For every
+   history of Loads, state creations and Runs (each Run with no state or with any state created so far, any number of times),
+   in which every Load is what the compiler produces (a call goes to a function of the table as it is after the file's own
+   functions were added): no call of the loaded code leaves the function table the state sees -- given that newRulesRunner
+   refreshes a state it is handed, which is the regenerated obligation *)
+Theorem C07_run_total_over_load_histories : forall ops,
+  wf_ops [] ops = true ->
+  exec (state_reuse_okb gen_evalenv_copied gen_evalenv_refreshed gen_state_reset gen_state_evalenv_from gen_state_var gen_given_state_calls) [] [] ops = Ok tt.
+Proof. intros ops Hw. rewrite state_reuse_ok. now apply given_state_run_total. Qed.
+Print Assumptions C07_run_total_over_load_histories.
+
+(* the refresh is necessary: a state created before a Load whose code calls a helper of its own file sees a table that is too
+   short (index out of range in the evaluator); a state created after the Load, and no state, are fine either way *)
+Theorem C07_stale_state_crashes :
+  wf_ops [] [HNew; HLoad [[1]; []]; HRun (Some 0)] = true /\
+  exec false [] [] [HNew; HLoad [[1]; []]; HRun (Some 0)] = Panic PIndex /\
+  exec false [] [] [HLoad [[]]; HNew; HLoad [[2]; []]; HRun (Some 0)] = Panic PIndex /\
+  exec false [] [] [HNew; HLoad [[1]; []]; HNew; HRun None; HRun (Some 1)] = Ok tt.
+Proof. exact stale_state_crashes. Qed.
+Print Assumptions C07_stale_state_crashes.
+
+Example c07_demo_history :
+  wf_ops [] [HNew; HLoad [[]]; HNew; HRun (Some 0); HLoad [[2]; [2]; []]; HRun (Some 0); HRun (Some 1); HRun None; HNew; HRun (Some 2)] = true.
+Proof. vm_compute. reflexivity. Qed.
